@@ -39,6 +39,9 @@ EXTRA = {  # additional checks that are expected to see a change, besides the pr
     # seen since the accounting lemma runs with timestamps of the longest encoding (round 7)
     "C16-6a": ["C12"],
     "C03-2b": ["C09"], "C05-2b": ["C09"], "C10-2a": ["C11", "C09"], "C05-2a": ["C04"], "C06-2b": ["C04"], "C01-2b": ["C07"],
+    # round 11 (smallest edit inside the anchored files against one quoted clause): every miss was closed in the own check;
+    # these are the siblings that judge the same code by their own statement
+    "C17-11a": ["C04"], "C05-11a": ["C11"], "C09-11a": ["C02"], "C08-11a": ["C07"], "C14-11b": ["C12"], "C01-11b": ["C07"], "C13-11a": ["C14"],
 }
 
 def run_one(base, name, props, redo):
